@@ -106,7 +106,7 @@ func cmdCheck(args []string) {
 	prop := fs.String("p", "", "property id")
 	tier := fs.String("tier", "", "quick|thorough")
 	verifDir := fs.String("verif", "/verif", "verif dir")
-	jobs := fs.Int("j", 10, "parallel obligations")
+	jobs := fs.Int("j", 8, "parallel obligations")
 	noEvidence := fs.Bool("no-evidence", false, "do not write the evidence file (selftest)")
 	fs.Parse(args)
 	if *tier == "" {
